@@ -156,7 +156,7 @@ _DEPTH = re.compile(r"depth of the complete state graph search is (\d+)")
 
 
 def run_tlc(ctx, module, cfg_kwargs, workers=None, extra=(), timeout=3600, workdir=None, files=(),
-            want_records=True, sim=None, heap=None):
+            want_records=True, sim=None, heap=None, cpus=None):
     """Run TLC on spec/<module>.tla in a scratch copy. files: extra (name, path) to copy in."""
     wd = workdir or tempfile.mkdtemp(prefix="tlc-", dir=ctx.scratch)
     for f in os.listdir(SPEC):
@@ -177,6 +177,8 @@ def run_tlc(ctx, module, cfg_kwargs, workers=None, extra=(), timeout=3600, workd
         jopts += " -Xss256m"
     if heap:
         jopts += " -Xmx" + heap
+    if cpus:
+        jopts += " -XX:ActiveProcessorCount=%d" % cpus
     env["JAVA_TOOL_OPTIONS"] = jopts.strip()
     res = TLCResult()
     res.out_path = os.path.join(wd, "tlc.out")
@@ -270,7 +272,7 @@ def validate_trace(ctx, trace_module, trace_path, constants, shards=None, timeou
         kw = dict(constants=constants)
         if extra_cfg:
             kw.update(extra_cfg)
-        r = run_tlc(ctx, trace_module, kw, workers=1, workdir=wd, timeout=timeout, heap="3g")
+        r = run_tlc(ctx, trace_module, kw, workers=1, workdir=wd, timeout=timeout, heap="3g", cpus=2)
         if r.violated or r.error:
             raise Infra("trace validation failed in %s: %s (see %s)" % (trace_module, r.violated or r.error, r.out_path))
         cls = [x for x in r.records if x.get("t") == "CLS"]
